@@ -485,7 +485,7 @@ Job gen_apache(Src &s, Ctx &c, bool *nontriv) {
 }  // namespace
 
 static bool g_conc_only = false;
-bool vf_configure(Ctx &c) {
+bool vf_configure(Ctx &c) { g_errno_repoison = 1;
     if (c.mode != "C20") return false;
     c.deciding = FUNC | CRASH | HANG; c.noteonly = MEM | LEAK;
     const char *td = getenv("TMPDIR");
